@@ -6,7 +6,7 @@ import RsddModel.Props.C14
 Source-level corollaries: the theorems of `Props/C14.lean` restated for `Gen.VT.*`
 (`Model/GenVTree.lean`, rewritten from `src/repr/vtree.rs`, `src/util/btree.rs`, `src/repr/dtree.rs` on every run),
 obtained by rewriting with the tie theorems of `Props/TieVTree.lean` and closing with the existing theorem.
-A generated `Option` result: `none` = the Rust panics.
+A generated `Option` result: `none` = the Rust panics.  `from_cnf` takes the `VarOrder` itself (any order, no hypothesis).
 -/
 set_option linter.unusedVariables false
 namespace TieVTree
@@ -14,15 +14,15 @@ open VT Spec
 
 /-- `DTree::from_cnf` (as the source says now): a dtree exists iff the CNF has a clause (no panic otherwise),
 and its leaves are exactly the CNF's clauses -/
-theorem dtree_leaves_source (cs : Cnf) (ord : List Nat) :
+theorem dtree_leaves_source (cs : Cnf) (ord : Orders.VarOrder) :
     (cs ≠ [] → (Gen.VT.fromCnf cs ord).isSome) ∧ (Gen.VT.fromCnf [] ord = none) ∧
     (∀ d, Gen.VT.fromCnf cs ord = some d → d.leaves.Perm cs) := by
   rw [fromCnf_tie]
-  exact ⟨(C14.dtree_leaves cs ord).1, (C14.dtree_leaves cs ord).2.1, (C14.dtree_leaves cs ord).2.2.1⟩
+  exact ⟨(C14.dtree_leaves cs ord.inOrder).1, (C14.dtree_leaves cs ord.inOrder).2.1, (C14.dtree_leaves cs ord.inOrder).2.2.1⟩
 
 /-- `vars` (read through the regenerated `get_vars`) of the dtree the source builds: union of the children's,
 ascending, exactly the variables of the clauses below -/
-theorem dtree_vars_source {cs : Cnf} {ord : List Nat} {d : DTree} (h : Gen.VT.fromCnf cs ord = some d) :
+theorem dtree_vars_source {cs : Cnf} {ord : Orders.VarOrder} {d : DTree} (h : Gen.VT.fromCnf cs ord = some d) :
     d.VarsOk ∧ VarSet.Sorted (Gen.VT.getVars d) ∧
     ∀ x, x ∈ Gen.VT.getVars d ↔ ∃ c ∈ d.leaves, ∃ l ∈ c, l.var = x := by
   rw [fromCnf_tie] at h
@@ -30,14 +30,14 @@ theorem dtree_vars_source {cs : Cnf} {ord : List Nat} {d : DTree} (h : Gen.VT.fr
   exact C14.dtree_vars h
 
 /-- every cutset of the dtree the source builds is `(vars l ∩ vars r) ∖ ancestors` -/
-theorem dtree_cutsets_source {cs : Cnf} {ord : List Nat} :
+theorem dtree_cutsets_source {cs : Cnf} {ord : Orders.VarOrder} :
     ∀ d, Gen.VT.fromCnf cs ord = some d → d.CutsOk [] := by
   rw [fromCnf_tie]
   exact C14.dtree_cutsets.1
 
 /-- `VTree::from_dtree` (as the source says now) does not panic on a dtree built by `from_cnf`; every occurring
 variable is exactly one leaf of the result, which is `None` iff no variable occurs -/
-theorem vtree_of_dtree_leaves_source {cs : Cnf} {ord : List Nat} {d : DTree}
+theorem vtree_of_dtree_leaves_source {cs : Cnf} {ord : Orders.VarOrder} {d : DTree}
     (h : Gen.VT.fromCnf cs ord = some d) :
     ∃ r, Gen.VT.fromDtree d = some r ∧
       (match r with
